@@ -860,10 +860,111 @@ def sigonly_globals():
     return [n for n in names if n in fields and n not in STRUCTURAL]
 
 
+# ---------------------------------------------------------------- version 0 wire form, signer-answer readers
+def defaults():
+    """{sec: [(field, default)]}: what `__init__` gives a field nothing was said about (what `parse` leaves in a
+    field the map does not carry): none | emptyBytes | emptyDict | other."""
+    objs = {"in": MI.PsbtIn(check_validity=False), "out": MO.PsbtOut(check_validity=False),
+            "glob": M.Psbt(2, [], [], 2, {}, check_validity=False)}
+    out = {}
+    for sec, cls in (("in", MI.PsbtIn), ("out", MO.PsbtOut), ("glob", M.Psbt)):
+        rows = []
+        for f in dataclasses.fields(cls):
+            if sec == "glob" and f.name in STRUCTURAL:
+                continue
+            v = getattr(objs[sec], f.name)
+            rows.append((f.name, "none" if v is None else "emptyBytes" if v == b"" and isinstance(v, bytes)
+                         else "emptyDict" if v == {} and isinstance(v, dict) else "other"))
+        out[sec] = rows
+    return out
+
+
+def v0_tx_fields():
+    """the fields a version 0 psbt states in its unsigned transaction: what `_read_tx_in` / `_read_tx_out` store
+    and what `_settle_globals` fills from `tx` (the two counts excepted: they are the lengths of the maps)."""
+    roots = {"psbt": "glob", "psbt_in": "in", "psbt_out": "out"}
+    w = stores([M._read_tx_in, M._read_tx_out], roots)
+    if w["glob"]:
+        raise ValueError(f"_read_tx_in/_read_tx_out store to globals: {sorted(w['glob'])}")
+    f = _fdef(M._settle_globals)
+    first = f.body[1] if isinstance(f.body[0], ast.Expr) else f.body[0]
+    if not (isinstance(first, ast.If) and ast.unparse(first.test) == "version == PSBT_V0"):
+        raise ValueError("_settle_globals: the version 0 branch is not the first statement")
+    glob = []
+    for st in first.body:
+        if isinstance(st, ast.Assign):
+            t = st.targets[0]
+            if not (isinstance(t, ast.Subscript) and ast.unparse(t.value) == "globals_"
+                    and isinstance(t.slice, ast.Constant)):
+                raise ValueError(f"_settle_globals: unrecognised store `{ast.unparse(st)}`")
+            src = ast.unparse(st.value)
+            if src in ("tx.version", "tx.lock_time"):
+                glob.append(t.slice.value)
+            elif src not in ("len(tx.vin)", "len(tx.vout)"):
+                raise ValueError(f"_settle_globals: unrecognised value `{src}`")
+        elif not isinstance(st, (ast.If, ast.Return)):
+            raise ValueError(f"_settle_globals: unrecognised statement `{ast.unparse(st)}`")
+    # and the way out: `_tx_in`, `_tx_out`, `_unsigned_tx` read exactly those (id_reads has them)
+    return {"in": sorted(w["in"]), "out": sorted(w["out"]), "glob": sorted(glob)}
+
+
+def v0_refused():
+    """the fields `assert_valid` refuses in a version 0 psbt (the `for value, name in (...)` tables)."""
+    def table(fn, root):
+        names = []
+        for n in ast.walk(_fdef(fn)):
+            if isinstance(n, ast.For) and ast.unparse(n.target) == "(value, name)" and isinstance(n.iter, ast.Tuple):
+                for e in n.iter.elts:
+                    v = e.elts[0]
+                    if isinstance(v, ast.BoolOp):            # `x or None`
+                        v = v.values[0]
+                    if not (isinstance(v, ast.Attribute) and isinstance(v.value, ast.Name) and v.value.id == root):
+                        raise ValueError(f"{fn.__name__}: unrecognised entry `{ast.unparse(e)}`")
+                    names.append(v.attr)
+        return sorted(names)
+    return {"in": table(M._assert_valid_input_fields, "psbt_in"), "out": table(M._assert_valid_output_fields, "psbt_out"),
+            "glob": table(M.Psbt.assert_valid, "self")}
+
+
+def signer_reads():
+    """which signature fields each reader of a signer's answer looks at."""
+    sig = set(M._SIGNATURE_FIELDS)
+
+    def attrs(fn, roots):
+        out = []
+        for n in ast.walk(_fdef(fn)):
+            if isinstance(n, ast.Attribute) and isinstance(n.value, ast.Name) and n.value.id in roots \
+                    and n.attr in sig and n.attr not in out:
+                out.append(n.attr)
+            if isinstance(n, ast.For) and isinstance(n.iter, (ast.Tuple, ast.List)) and \
+                    all(isinstance(e, ast.Constant) and e.value in sig for e in n.iter.elts):
+                out += [e.value for e in n.iter.elts if e.value not in out]
+        return out
+    verified = attrs(M._assert_ecdsa_sigs_verify, {"psbt_in", "request_in"}) + \
+        attrs(M._assert_taproot_sigs_verify, {"psbt_in", "request_in"})
+    f = _fdef(M.assert_signed)
+    signed, final = None, None
+    for n in ast.walk(f):
+        if isinstance(n, ast.Assign) and ast.unparse(n.targets[0]) == "signed" and isinstance(n.value, ast.BoolOp) \
+                and isinstance(n.value.op, ast.Or):
+            signed = [v.attr for v in n.value.values]
+        if isinstance(n, ast.If) and isinstance(n.test, ast.BoolOp) and isinstance(n.test.op, ast.Or) and \
+                all(isinstance(v, ast.Attribute) and v.attr.startswith("final_") for v in n.test.values):
+            final = [v.attr for v in n.test.values]
+    if signed is None or final is None:
+        raise ValueError("assert_signed: `signed = a or b or c` / the finalized test not recognised")
+    src = " ".join(ast.unparse(f).split())
+    if "if not signed and (not allow_partial):" not in src and "if not signed and not allow_partial:" not in src:
+        raise ValueError("assert_signed: the `not signed and not allow_partial` refusal not recognised")
+    who = attrs(M._plain_key_signers, {"request_in", "returned_in"}) + attrs(M._taproot_signers, {"request_in", "returned_in"})
+    return dict(verified=verified, signed=signed, final=final, newsigners=sorted(who))
+
+
 def extract_all():
     return dict(calls=combine_calls(), universe=universe(), idreads=id_reads(), writes=role_writes(),
                 sigfields=sorted(M._SIGNATURE_FIELDS), dropped=sorted(MI._DROPPED_ONCE_FINALIZED),
-                sigglobals=sigonly_globals())
+                sigglobals=sigonly_globals(), defaults=defaults(), v0tx=v0_tx_fields(), v0refused=v0_refused(),
+                signer=signer_reads())
 
 
 def constants():
@@ -886,6 +987,20 @@ def constants():
     w = d["writes"]
     for k in ("signIn", "signGlob", "finIn", "finGlob", "v0In", "v0Glob", "v2In", "v2Glob"):
         t += f"def {k}Writes : List String := {_strlist(sorted(w[k]))}\n"
+    for sec in ("in", "out", "glob"):
+        t += f"/-- what `__init__` / `parse` leaves in a field of the {sec} section nothing was said about -/\n"
+        t += f"def {sec}Defaults : List (String × Dflt) := [\n  " + ",\n  ".join(
+            f"({_s(n)}, Dflt.{v})" for n, v in d["defaults"][sec]) + "]\n"
+        t += f"/-- fields of the {sec} section a version 0 psbt states in its unsigned transaction -/\n"
+        t += f"def {sec}V0Tx : List String := {_strlist(d['v0tx'][sec])}\n"
+        t += f"/-- fields of the {sec} section `assert_valid` refuses in a version 0 psbt -/\n"
+        t += f"def {sec}V0Refused : List String := {_strlist(d['v0refused'][sec])}\n"
+    sr = d["signer"]
+    t += f"/-- signature fields `_assert_ecdsa_sigs_verify` / `_assert_taproot_sigs_verify` verify -/\n"
+    t += f"def verifiedSigFields : List String := {_strlist(sr['verified'])}\n"
+    t += f"/-- `assert_signed`: an input holding one of these is signed -/\ndef signedIfAny : List String := {_strlist(sr['signed'])}\n"
+    t += f"/-- `assert_signed`: an input holding one of these is finalized -/\ndef finalizedIfAny : List String := {_strlist(sr['final'])}\n"
+    t += f"/-- signature fields `new_signers` attributes -/\ndef newSignersFields : List String := {_strlist(sr['newsigners'])}\n"
     t += f"\ndef INPUTS_MODIFIABLE : Nat := {M.INPUTS_MODIFIABLE}\n"
     t += f"def OUTPUTS_MODIFIABLE : Nat := {M.OUTPUTS_MODIFIABLE}\n"
     t += f"def HAS_SIG_HASH_SINGLE : Nat := {M.HAS_SIG_HASH_SINGLE}\n"
